@@ -42,6 +42,21 @@ CLAIMED["C12"] = dict(technique="constant replacer tables evaluated in a model o
 CLAIMED["C17"] = dict(technique="error-discipline analysis over SSA use-def + typed AST, CFG ordering, regexp/syntax language vs switch cases, provenance of recorded indices, shape census of mask pieces",
   text="Decides structural necessary conditions of command-line handling: no dropped/unused error among ~240 error-returning calls reachable from ParseOptions; file→env→argv layering with one shared occurrence counter; action-name tables agree (41 names within the masking regexp's language); main maps a parse error to exit 2; global occurrence indices for --tmux/--height; offset-preserving mask pieces; (thorough) MustCompile only on constants/QuoteMeta text. Does not decide totality of the splitter nor the bind round-trip.",
   note="Scope = functions of package fzf reachable from ParseOptions by static calls/closures; writes that cannot fail are exempt by name prefix.")
+CLAIMED["C02"] = dict(technique="path conditions on the slab-carving helpers + constant table within guard interval",
+  text="Decides two structural necessary conditions of 'never a crash / table consistent': slab reslices are bounded by a capacity test on the very expression used as the slice bound with a heap fallback; all keys of the accent table lie inside normalizeRune's guard. Does not decide witness soundness/completeness of the matchers.",
+  note="The matchers' index arithmetic is value-level and not decided; mutants of the matching algorithms themselves are outside this check's reach.")
+CLAIMED["C03"] = dict(technique="constant relations and inequality over go/constant values read from the code + dominator-based path conditions",
+  text="Decides two structural necessary conditions of the scoring model: the documented constants and their documented relations; int16 headroom for the longest pattern the O(nm) algorithm accepts with the code's own slab size, the V1 fallback guarding the matrices, and slab sizes at creation. Does not decide agreement of the optimised DP with the recurrence.",
+  note="The headroom bound uses M <= floor(sqrt(slab16Size)) (from N*M <= slab and M <= N).")
+CLAIMED["C05"] = dict(technique="goroutine argument census + offset chaining of scratch carving + cross-site agreement (begin-derived rank keys vs position request)",
+  text="Decides three structural necessary conditions of purity: one slab per worker (and mutex for the streaming slab); pairwise disjoint scratch arrays by offset chaining; every criterion whose key is computed from the begin offset gets exact positions. Does not decide absence of stale scratch reads.",
+  note="Stale-read freedom of the carved arrays needs value reasoning and is explicitly not claimed.")
+CLAIMED["C06"] = dict(technique="alias families over SSA phi webs (slab / carry-over buffer) + lockset + must-pass-through in item builders",
+  text="Decides three structural necessary conditions of record→item fidelity: buffer hand-off safety in Reader.feed (advancing/reallocated slab, carry-over never resliced or reused after hand-off); boundary-chunk copies under the lock and a closed writer set for the chunk list; ordinal/header discipline of the item builders. Does not decide framing for every chunking.",
+  note="go/ssa phi webs identify the loop-carried buffers; no names are used.")
+CLAIMED["C10"] = dict(technique="reader/constructor census of Range + call-graph reachability of the single interpreter + provenance of offsets + unit agreement",
+  text="Decides three structural necessary conditions of field expressions: one interpreter/parser of Range reached by all four consumers; match offsets and positions shifted by the token's prefix length; prefix lengths accumulated in characters. Does not decide tokenizer partition or range arithmetic.",
+  note="VTA call graph for reachability through the transformer closures.")
 NA = {
 }
 ALL = ["C%02d" % i for i in range(1, 21)]
